@@ -494,7 +494,7 @@ fn gen_f32(r: &mut Rng) -> f32 {
         0 => 0.0,
         1 => f32::from_bits(0x7fc0_0001), // NaN with payload
         2 => f32::INFINITY,
-        3 => -1.5,
+        3 => f32::from_bits(0x7fa0_0000), // signalling NaN: a writer that widens / narrows the value sets the quiet bit
         _ => f32::from_bits(r.u32()),
     }
 }
@@ -503,7 +503,7 @@ fn gen_f64(r: &mut Rng) -> f64 {
         0 => 0.0,
         1 => f64::from_bits(0x7ff8_0000_0000_0001),
         2 => f64::NEG_INFINITY,
-        3 => 2.25,
+        3 => f64::from_bits(0x7ff4_0000_0000_0001), // signalling NaN
         _ => f64::from_bits(r.next_u64()),
     }
 }
@@ -1184,10 +1184,27 @@ pub fn gen_foreign_record(r: &mut Rng, storage: bool) -> Rec {
                         w32(be, r.u32(), &mut payload);
                     }
                     _ => {
-                        // float64 with reserved bits
-                        let ti: u32 = (1 << 7) | 4 | ((r.below(4) as u32) << 18);
-                        w32(be, ti, &mut payload);
-                        payload.extend(r.bytes(8));
+                        // float64 with reserved bits; one in four a float32 instead, and NaNs with
+                        // the quiet bit clear (signalling) among them - a value only a foreign writer
+                        // can put on the medium if the crate's own writer normalises floats. Decided
+                        // from the bytes already drawn, so the PRNG stream is the same as before.
+                        let res = (r.below(4) as u32) << 18;
+                        let mut bs = r.bytes(8);
+                        if bs[0] & 3 == 0 {
+                            w32(be, (1 << 7) | 3 | res, &mut payload);
+                            let mut v = u32::from_le_bytes([bs[4], bs[5], bs[6], bs[7]]);
+                            if bs[1] & 1 == 0 {
+                                v = (v & 0x803f_ffff) | 0x7f80_0000 | 1; // signalling NaN, random sign and payload
+                            }
+                            if be { payload.extend_from_slice(&v.to_be_bytes()) } else { payload.extend_from_slice(&v.to_le_bytes()) }
+                        } else {
+                            w32(be, (1 << 7) | 4 | res, &mut payload);
+                            if bs[0] & 3 == 1 {
+                                let v = (u64::from_le_bytes([bs[0], bs[1], bs[2], bs[3], bs[4], bs[5], bs[6], bs[7]]) & 0x8007_ffff_ffff_ffff) | 0x7ff0_0000_0000_0001;
+                                bs = if be { v.to_be_bytes().to_vec() } else { v.to_le_bytes().to_vec() };
+                            }
+                            payload.extend(bs);
+                        }
                     }
                 }
             }
